@@ -217,6 +217,7 @@ type wOp struct {
 	Node     string   `json:"node,omitempty"`
 	Include  []string `json:"include,omitempty"`
 	Limit    int      `json:"limit,omitempty"`
+	Entry    string   `json:"entry,omitempty"` // entrypoint name of a create (default "web")
 }
 
 func (o wOp) String() string { b, _ := json.Marshal(o); return string(b) }
@@ -318,7 +319,7 @@ func runOp(ctx context.Context, inst *world.Instance, op wOp, pre *world.View) (
 	switch op.Kind {
 	case "create":
 		bind, cpu, mem := reqSpec(op.Req)
-		spec := world.DeploySpec{Pod: "p", Count: op.Count, Strategy: op.Strategy, Bind: bind, CPU: cpu, Memory: mem, Limit: op.Limit}
+		spec := world.DeploySpec{Pod: "p", Count: op.Count, Strategy: op.Strategy, Bind: bind, CPU: cpu, Memory: mem, Limit: op.Limit, Entry: op.Entry}
 		if len(op.Include) > 0 {
 			spec.Filter = &coretypes.NodeFilter{Podname: "p", Includes: op.Include}
 		} else if strings.HasPrefix(op.Node, "exclude-") {
